@@ -180,7 +180,7 @@ func checkC02(R *Run) {
 				nReadSites++
 				minSym := P.sym(c.Args[2])
 				bufLen := "builtin.len(" + P.sym(c.Args[1]) + ")"
-				R.check(minSym == bufLen, "bare-read", fmt.Sprintf("%s: io.ReadAtLeast #%d", fname(fn), nCreateIn(fn, ci)), P.ipos(ci), "min = len(buf)", "io.ReadAtLeast with min "+minSym+" < len(buf) accepts a short read")
+				R.check(minSym == bufLen || isLenOf(c.Args[2], c.Args[1]), "bare-read", fmt.Sprintf("%s: io.ReadAtLeast #%d", fname(fn), nCreateIn(fn, ci)), P.ipos(ci), "min = len(buf)", "io.ReadAtLeast with min "+minSym+" < len(buf) accepts a short read")
 				continue
 			}
 			switch name {
@@ -224,12 +224,17 @@ func checkC02(R *Run) {
 					if rf == nil {
 						rf = c
 					}
+				case "io.ReadAtLeast":
+					// io.ReadAtLeast(r, buf, len(buf)) is the body of io.ReadFull
+					if rf == nil && len(c.Call.Args) == 3 && isLenOf(c.Call.Args[2], c.Call.Args[1]) {
+						rf = c
+					}
 				}
 			}
 		}
 		construct := it.fn + ": frame of " + fmt.Sprint(it.size) + " bytes"
 		if wr == nil || rf == nil {
-			R.bad("preamble-read", construct, P.pos(fn.Pos()), "the frame is not read with io.ReadFull and then decoded with "+it.decoder+" (accepted idiom: buf := make([]byte, N); io.ReadFull(r, buf); x.Write(buf))")
+			R.bad("preamble-read", construct, P.pos(fn.Pos()), "the frame is not read with io.ReadFull (or io.ReadAtLeast with min = len(buf)) and then decoded with "+it.decoder+" (accepted idiom: buf := make([]byte, N); io.ReadFull(r, buf); x.Write(buf))")
 			continue
 		}
 		// the decoded bytes are (a prefix slice of) the buffer ReadFull filled, whose size is N, and ReadFull comes first
@@ -441,3 +446,51 @@ func (R *Run) checkSplit(sf *ssa.Function, construct string) {
 }
 
 func init() { register("C02", checkC02) }
+
+// isLenOf: n is len(buf) of the same slice value, or the constant length the slice was made with.
+func isLenOf(n, buf ssa.Value) bool {
+	if c, ok := n.(*ssa.Call); ok {
+		if b, ok := c.Call.Value.(*ssa.Builtin); ok && b.Name() == "len" && len(c.Call.Args) == 1 {
+			return c.Call.Args[0] == buf || rootCell(stripSlice(c.Call.Args[0])) == rootCell(stripSlice(buf)) && !isSliced(c.Call.Args[0]) && !isSliced(buf)
+		}
+	}
+	if k, ok := constInt(n); ok {
+		// buf is arr[:] of an array of k bytes (len of an array is folded to a constant)
+		if sl, ok := buf.(*ssa.Slice); ok && sl.Low == nil && sl.High == nil {
+			if pt, ok := sl.X.Type().Underlying().(*types.Pointer); ok {
+				if arr, ok := pt.Elem().Underlying().(*types.Array); ok {
+					return arr.Len() == k
+				}
+			}
+		}
+		switch r := rootCell(stripSlice(buf)).(type) {
+		case *ssa.MakeSlice:
+			if m, ok := constInt(r.Len); ok && !isSliced(buf) {
+				return m == k
+			}
+		case *ssa.Alloc:
+			if arr, ok := derefType(r.Type()).Underlying().(*types.Array); ok && isWholeSlice(buf) {
+				return arr.Len() == k
+			}
+		}
+	}
+	return false
+}
+
+// isSliced: v is a proper sub-slice expression (low or high bound given) rather than the slice itself.
+func isSliced(v ssa.Value) bool {
+	if s, ok := v.(*ssa.Slice); ok {
+		if _, isPtrArr := s.X.Type().Underlying().(*types.Pointer); isPtrArr {
+			return s.Low != nil || s.High != nil
+		}
+		return true
+	}
+	return false
+}
+
+func isWholeSlice(v ssa.Value) bool {
+	if s, ok := v.(*ssa.Slice); ok {
+		return s.Low == nil && s.High == nil
+	}
+	return true
+}
